@@ -354,7 +354,7 @@ pub struct Package {
     pub sha256: Option<String>,
 
     /// Description (MD5)
-    #[deb822(field = "Description-MD5")]
+    #[deb822(field = "Description-md5")]
     pub description_md5: Option<String>,
 }
 
